@@ -92,7 +92,7 @@ theorem inv_step {s s' : G} {l : Label} (h : Inv s) (hx : excluded s l = false)
         cases hs
         refine inv_upd h rfl ?_
         intro he
-        exact ent_lnRead_err (h.ent e he) hg.2.1 herr
+        exact ent_lnRead_err (h.ent e he) hg.2.1 herr hg.2.2
       · rename_i herr
         cases hs
         refine inv_upd h rfl ?_
